@@ -136,6 +136,7 @@ type frame struct {
 	labelOf  map[ast.Stmt]string
 	specPos  token.Pos
 	ghosts   map[string]binding
+	stmtKey  map[ast.Stmt]string // text key of every statement (for `at stmt[text]:` hints, robust to inserted statements)
 	stmtOrd  map[ast.Stmt]int // source-order ordinal of every statement of the function (for `at stmtN:` hints)
 }
 
@@ -182,6 +183,7 @@ type VC struct {
 	splitJoins    bool                 // contract clause `nomerge`: branches of if/switch are not joined until the end of the enclosing block
 	pendingOuts   []*State
 	blockOuts     []*State
+	hintName      string               // display name for the obligations of the hint being applied
 	hintsSeen     map[string]bool     // `at <label>:` hints of the verified function that were reached
 	paramSlices   []paramSlice        // the same, with their element heap (frame facts are instantiated for them)
 	subFuncs      []string            // embedded-struct identity functions declared so far
